@@ -619,6 +619,22 @@ def f38():
     return not out, "; ".join(out) or "rejected"
 
 
+@trigger("F39", ["C17"])
+def f39():
+    """an event built from the caller's own Series of rebuilding shares keeps its shares when the caller edits that Series afterwards"""
+    import pandas as _pd
+    from boario import event as _bev
+    tb = base_table()
+    regs, secs, cats = scen.labels(tb)
+    rs = _pd.Series({secs[0]: 0.75, secs[1]: 0.25}, dtype=float)
+    ev = _bev.from_series(scen._mi({f"{regs[0]}|{secs[0]}": 5.0}, ["region", "sector"]), event_type="rebuild", occurrence=1, duration=1,
+                          rebuild_tau=2, rebuilding_sectors=rs, rebuilding_factor=1.0, event_monetary_factor=10**6)
+    before = [float(v) for v in ev.rebuilding_sectors.to_numpy()]
+    rs.iloc[:] = [0.25, 0.75]
+    after = [float(v) for v in ev.rebuilding_sectors.to_numpy()]
+    return before == after, f"shares held by the event before / after the caller's edit: {before} / {after}"
+
+
 @trigger("F36", ["C01", "C19"])
 def f36():
     """an event-free run of 300 steps with alt orders, the base class, alpha_max = 2 and alpha_tau = one step stays at the equilibrium (known finding)"""
